@@ -306,6 +306,8 @@ def gen_run(rng):
             up['restarts.max_npt'] = n + 1 + int(rng.integers(1, 3))
     elif restarts == 'hard':
         up['restarts.use_restarts'] = True; up['restarts.use_soft_restarts'] = False
+        if rng.random() < 0.5:
+            up['restarts.hard.use_old_rk'] = False       # the other solve_main call site in solve()
     dt = rng.choice([0, 1e-4, 1e-6, 1e-12], p=[.5, .15, .2, .15])
     if dt:
         up['dykstra.d_tol'] = float(dt)
